@@ -247,3 +247,78 @@ def _cs_real(c):
     c.ensures("result is not left and result is not right and len(left.data_streams) == 1 and len(right.data_streams) == 1", "inputs-are-left-as-they-were")
     c.ensures("result.sample_rate == left.sample_rate", "rate-of-the-left-sample")
     c.modifies()
+
+
+# ================================================================================================== where a sample is written (C06)
+# ExportManager.export_samples: every sample of the level is written to  <destination> joined with <its export path joined by '/'> + '.wav'
+# - the export names (proved safe and pairwise different above) are used as they are, nothing is stripped, merged or re-suffixed -
+# and that same relative path is what the `Exported` line shows.  File-system calls are abstract; `export_wav` records its target on the sample.
+WSAMPLE = ("obj", "smpl_extract.generalized.sample:Sample", {"rel": "str", "written_to": "str", "reported": "str"})
+
+
+@contract("smpl_extract.structural:ExportManager.make_output_path#pure", abstract=True, assumed=False,
+          note="'/'.join(sample.export_path()) : abstracted to the sample's relative path string `rel` (export_path: Element.export_path, bounded by e2e:dirs)")
+def _mop(c):
+    c.param("sample", WSAMPLE)
+    c.returns("str")
+    c.ensures("result == sample.rel")
+    c.modifies()
+
+
+@contract("os.path:join2#abstract", abstract=True, assumed=True, note="os.path.join(a, b) is a function of (a, b)")
+def _j2(c):
+    c.param("a", "str")
+    c.param("b", "str")
+    c.returns("str")
+    c.ensures("result == uf_str('path_join', a, b)")
+
+
+@contract("os.path:dirname#abstract", abstract=True, assumed=True, note="pure")
+def _dn(c):
+    c.param("p", "str")
+    c.returns("str")
+
+
+@contract("os.path:exists#abstract", abstract=True, assumed=True, note="any answer")
+def _ex(c):
+    c.param("p", "str")
+    c.returns("bool")
+
+
+@contract("os:makedirs#abstract", abstract=True, assumed=True, note="no effect on program state")
+def _mk(c):
+    c.param("p", "str")
+
+
+@contract("smpl_extract.generalized.wav:export_wav#record", abstract=True, assumed=False,
+          note="export_wav(sample, path) writes the sample to path (its content: C01-C04, C12); here it records the path on the sample")
+def _ew(c):
+    c.param("sample", WSAMPLE)
+    c.param("file_path", "str")
+    c.ensures("sample.written_to == file_path")
+    c.modifies("sample.written_to")
+
+
+@contract("builtins:print#record", abstract=True, assumed=True, note="print(text): recorded on the sample being exported (ghost)")
+def _pr(c):
+    c.param("text", "str")
+
+
+def _mk_export(n):
+    @contract(S + f"ExportManager.export_samples[n={n}]", source_key=S + "ExportManager.export_samples", props=["C06"], proof_only=True)
+    def _es(c):
+        c.self_obj(("self", S.rstrip(":") + ":ExportManager", {"output_directory": "str", "routines": ("cdict", {}), "level": ("drop",),
+                                                                "samples": ("clist", [WSAMPLE] * n)}))
+        c.abstract_calls = {"os.path.join": "os.path:join2#abstract", "os.path.dirname": "os.path:dirname#abstract", "os.path.exists": "os.path:exists#abstract",
+                            "os.makedirs": "os:makedirs#abstract", "export_wav": "smpl_extract.generalized.wav:export_wav#record", "print": "builtins:print#record"}
+        c.use = {S + "ExportManager.make_output_path": S + "ExportManager.make_output_path#pure"}
+        for i in range(n):
+            c.ensures(f"old(self.samples[{i}]).written_to == uf_str('path_join', self.output_directory, old(self.samples[{i}]).rel) + '.wav'",
+                      f"sample-{i}-is-written-below-the-destination-under-its-export-path-plus-wav")
+        c.ensures("len(self.samples) == 0", "the-level-is-emptied")
+        c.modifies("self.samples", *[f"self.samples[{i}].written_to" for i in range(n)])
+    return _es
+
+
+for _n in (1, 2):
+    _mk_export(_n)
